@@ -414,4 +414,256 @@ def parse_module(path):
                 i += 1
             i += 1; continue
         i += 1
+    mod.code = CodeCache(mod)
     return mod
+
+
+class CodeCache:
+    """parsed instructions per function (pure parsing, no solver objects): built lazily, or eagerly in the
+    parent process before forking workers"""
+    def __init__(self, mod):
+        self.m = mod
+        self.icache = {}
+        self.fcode = {}
+
+    def parse_instr(self, text):
+        ins = self.icache.get(text)
+        if ins is not None:
+            return ins
+        t = text
+        j = t.find(", !")
+        if j >= 0:
+            t = t[:j]
+        toks = tokenize(t.strip())
+        p = P(self.m, toks)
+        dst = None
+        if p.peek(1)[1] == "=":
+            dst = p.next()[1]
+            p.next()
+        op = p.next()[1]
+        if op in ("tail", "musttail", "notail"):
+            op = p.next()[1]
+        ins = self._parse_op(p, op, dst)
+        self.icache[text] = ins
+        return ins
+
+    def _parse_op(self, p, op, dst):
+        if op in ("add", "sub", "mul", "udiv", "sdiv", "urem", "srem", "shl", "lshr", "ashr", "and", "or", "xor"):
+            flags = []
+            while p.peek()[1] in ("nuw", "nsw", "exact", "disjoint"):
+                flags.append(p.next()[1])
+            ty = p.type()
+            a = p.const(ty)
+            p.expect(",")
+            b = p.const(ty)
+            return ("bin", dst, op, ty, a, b, tuple(flags))
+        if op == "icmp":
+            if p.peek()[1] == "samesign":
+                p.next()
+            pred = p.next()[1]
+            ty = p.type()
+            a = p.const(ty)
+            p.expect(",")
+            b = p.const(ty)
+            return ("icmp", dst, pred, ty, a, b)
+        if op in ("zext", "sext", "trunc", "bitcast", "ptrtoint", "inttoptr", "addrspacecast"):
+            while p.peek()[1] in ("nneg", "nuw", "nsw"):
+                p.next()
+            ft = p.type()
+            v = p.const(ft)
+            p.expect("to")
+            tt = p.type()
+            return ("cast", dst, op, ft, v, tt)
+        if op == "load":
+            while p.peek()[1] in ("atomic", "volatile"):
+                p.next()
+            ty = p.type()
+            p.expect(",")
+            pt = p.type()
+            a = p.const(pt)
+            return ("load", dst, ty, a)
+        if op == "store":
+            while p.peek()[1] in ("atomic", "volatile"):
+                p.next()
+            ty = p.type()
+            v = p.const(ty)
+            p.expect(",")
+            pt = p.type()
+            a = p.const(pt)
+            return ("store", ty, v, a)
+        if op == "getelementptr":
+            while p.peek()[1] in ("inbounds", "nuw", "nusw"):
+                p.next()
+            bt = p.type()
+            p.expect(",")
+            pt = p.type()
+            base = p.const(pt)
+            idx = []
+            while p.accept(","):
+                it = p.type()
+                idx.append((it, p.const(it)))
+            return ("gep", dst, bt, base, idx)
+        if op == "phi":
+            ty = p.type()
+            inc = {}
+            while True:
+                p.expect("[")
+                v = p.const(ty)
+                p.expect(",")
+                lab = p.next()[1]
+                p.expect("]")
+                inc[lab] = v
+                if not p.accept(","):
+                    break
+            return ("phi", dst, ty, inc)
+        if op == "select":
+            ct = p.type()
+            c = p.const(ct)
+            p.expect(",")
+            ty = p.type()
+            a = p.const(ty)
+            p.expect(",")
+            ty2 = p.type()
+            b = p.const(ty2)
+            return ("select", dst, ct, c, ty, a, b)
+        if op == "br":
+            if p.peek()[1] == "label":
+                p.next()
+                return ("jmp", p.next()[1])
+            ct = p.type()
+            c = p.const(ct)
+            p.expect(",")
+            p.expect("label")
+            a = p.next()[1]
+            p.expect(",")
+            p.expect("label")
+            b = p.next()[1]
+            return ("br", c, a, b)
+        if op == "switch":
+            ty = p.type()
+            v = p.const(ty)
+            p.expect(",")
+            p.expect("label")
+            d = p.next()[1]
+            p.expect("[")
+            cases = []
+            while not p.accept("]"):
+                ct = p.type()
+                cv = p.const(ct)
+                p.expect(",")
+                p.expect("label")
+                cases.append((cv[1], p.next()[1]))
+            return ("switch", ty, v, d, cases)
+        if op == "ret":
+            ty = p.type()
+            if ty.k == "void":
+                return ("ret", None, None)
+            return ("ret", ty, p.const(ty))
+        if op == "unreachable":
+            return ("unreachable",)
+        if op in ("call", "invoke"):
+            while True:
+                k, v = p.peek()
+                if v in FN_PRE or v in FASTMATH:
+                    p.next()
+                    if v == "cc":
+                        p.next()
+                elif v in PARAM_ATTRS_ARG:
+                    p.next()
+                    if p.peek()[1] == "(":
+                        p.skip_balanced()
+                    elif p.peek()[0] == "num":
+                        p.next()
+                else:
+                    break
+            rt = p.type()
+            callee = p.next()[1]
+            asm = None
+            if callee == "asm":
+                while p.peek()[1] in ("sideeffect", "alignstack", "inteldialect", "unwind"):
+                    p.next()
+                asm = p.next()[1]
+                p.expect(",")
+                asm = (asm, p.next()[1])
+                callee = "@llvm.inline.asm"
+            p.expect("(")
+            args = []
+            if not p.accept(")"):
+                while True:
+                    at = p.type()
+                    p.skip_param_attrs()
+                    if at.k == "metadata":
+                        p.const(at)
+                        args.append((at, ("meta",)))
+                    else:
+                        args.append((at, p.const(at)))
+                    if p.accept(")"):
+                        break
+                    p.expect(",")
+            normal = None
+            if op == "invoke":
+                # ... to label %a unwind label %b
+                while p.peek()[1] != "to":
+                    p.next()
+                p.next()
+                p.expect("label")
+                normal = p.next()[1]
+            if asm is not None:
+                return ("asm", dst, rt, asm[0], asm[1], args, normal)
+            return ("call", dst, rt, callee, args, normal)
+        if op == "alloca":
+            ty = p.type()
+            cnt = None
+            align = 1
+            while p.accept(","):
+                if p.peek()[1] == "align":
+                    p.next()
+                    align = int(p.next()[1])
+                else:
+                    ct = p.type()
+                    cnt = (ct, p.const(ct))
+            return ("alloca", dst, ty, cnt, align)
+        if op == "extractvalue":
+            ty = p.type()
+            v = p.const(ty)
+            idx = []
+            while p.accept(","):
+                idx.append(int(p.next()[1]))
+            return ("extractvalue", dst, ty, v, idx)
+        if op == "insertvalue":
+            ty = p.type()
+            v = p.const(ty)
+            p.expect(",")
+            et = p.type()
+            ev = p.const(et)
+            idx = []
+            while p.accept(","):
+                idx.append(int(p.next()[1]))
+            return ("insertvalue", dst, ty, v, et, ev, idx)
+        if op == "freeze":
+            ty = p.type()
+            v = p.const(ty)
+            return ("freeze", dst, ty, v)
+        if op == "fence":
+            return ("nop",)
+        return ("unsupported", op)
+
+    def code_of(self, fn):
+        c = self.fcode.get(fn.name)
+        if c is None:
+            c = {}
+            for lab, lines in fn.blocks.items():
+                out = []
+                for t in lines:
+                    try:
+                        out.append(self.parse_instr(t))
+                    except Exception as ex:
+                        out.append(("unsupported", "unparsed instruction (%s): %s" % (ex, t.strip()[:80])))
+                c[lab] = out
+            self.fcode[fn.name] = c
+        return c
+
+
+    def parse_all(self):
+        for fn in self.m.funcs.values():
+            self.code_of(fn)
